@@ -1,0 +1,26 @@
+//! Scheduling-point hooks for deterministic simulation.
+//!
+//! Only compiled with `--cfg fontations_verif`. A simulator installs one
+//! function; library code calls [`sched_point`] at the few places where
+//! threads meet shared state. Without an installed function this is a no-op.
+
+extern crate std;
+
+use std::sync::OnceLock;
+
+static HOOK: OnceLock<fn(&'static str)> = OnceLock::new();
+
+/// Installs the function called at every scheduling point.
+///
+/// Returns `false` if a function was already installed.
+pub fn install(f: fn(&'static str)) -> bool {
+    HOOK.set(f).is_ok()
+}
+
+/// Marks a point where another thread may be scheduled.
+#[inline]
+pub fn sched_point(site: &'static str) {
+    if let Some(f) = HOOK.get() {
+        f(site);
+    }
+}
